@@ -549,6 +549,8 @@ def run(ctx: Ctx) -> None:
     n_init = ctx.n(40, 400)
     hash_order_probe(ctx, rng)
     for i in range(n_state):
+        if ctx.out_of_time():
+            break
         case = gen_state_case(ctx, rng)
         probs, detail = run_state(ctx, case, want_detail=True)
         n = case["n"]
@@ -580,12 +582,16 @@ def run(ctx: Ctx) -> None:
         if probs:
             report(ctx, case, probs)
     for _ in range(n_data):
+        if ctx.out_of_time():
+            break
         case = gen_data_case(ctx, rng)
         probs = run_data(ctx, case)
         ctx.case(json.dumps(case, default=str), case["fault"] == "none")
         if probs:
             report(ctx, case, probs)
     for _ in range(n_init):
+        if ctx.out_of_time():
+            break
         case = gen_init_case(ctx, rng)
         probs = run_init(ctx, case)
         ctx.case(json.dumps(case), False)
